@@ -41,10 +41,70 @@ package websocket
 
 //@ func equalASCIIFold
 //@ tags C07 C12 C13 C14
+//@ pure
 //@ ensures[C13.fold.sound] imp(result, len(s) == len(t) && forall(i, 0, len(s), lower(s[i]) == lower(t[i])))
 //@ ensures[C13.fold.complete] imp(len(s) == len(t) && forall(i, 0, len(s), lower(s[i]) == lower(t[i])), result)
-//@ loop 1 invariant region(s) == region(old(s)) && off(s) + len(s) == off(old(s)) + len(old(s)) && len(s) <= len(old(s))
-//@ loop 1 invariant region(t) == region(old(t)) && off(t) + len(t) == off(old(t)) + len(old(t)) && len(t) <= len(old(t))
-//@ loop 1 invariant len(old(s)) - len(s) == len(old(t)) - len(t)
-//@ loop 1 invariant forall(k, 0, len(old(s)) - len(s), lower(old(s)[k]) == lower(old(t)[k]))
-//@ loop 1 decreases len(s) + len(t)
+//@ loop 1 invariant 0 <= i && i <= len(s) && len(s) == len(t)
+//@ loop 1 invariant forall(k, 0, i, lower(s[k]) == lower(t[k]))
+//@ loop 1 decreases len(s) - i
+
+// ---------------------------------------------------------------------------
+// conn.go: pure helpers
+
+//@ func FormatCloseMessage
+//@ tags C04 C06 C07 C08
+//@ mode bv
+//@ modifies
+//@ ensures[L4.empty] imp(closeCode == 1005, len(result) == 0)
+//@ ensures[L4.len] imp(closeCode != 1005, len(result) == 2 + len(text))
+//@ ensures[L4.code] imp(closeCode != 1005, result[0] == byte(closeCode >> 8) && result[1] == byte(closeCode))
+//@ ensures[L4.text] imp(closeCode != 1005, forall(i, 0, len(text), result[2+i] == text[i]))
+//@ ensures[fresh] imp(closeCode != 1005, region(result) >= old(alloc()))
+
+//@ func isValidReceivedCloseCode
+//@ tags C04 C08
+//@ mode bv int
+//@ pure
+//@ ensures[C08.mustAccept] imp((1000 <= code && code <= 1003) || (1007 <= code && code <= 1011) || (3000 <= code && code <= 4999), result)
+//@ ensures[C04.mustReject] imp(code < 1000 || (1004 <= code && code <= 1006) || (1015 <= code && code <= 2999) || code >= 5000, !result)
+
+// ---------------------------------------------------------------------------
+// mask.go
+//
+// P(j): byte j of the original slice has been masked with the key phase it
+// must get; U(j): byte j is still untouched.  c = len(old(b)) - len(b) is the
+// number of bytes dropped from the front of b by the re-slicing.
+
+//@ pred maskedAt(ob, key, pos0, j) := ob[j] == old(ob[j]) ^ key[(pos0+j)&3]
+//@ pred untouchedAt(ob, j) := ob[j] == old(ob[j])
+//@ pred suffixOf(b, ob) := region(b) == region(ob) && off(b) + len(b) == off(ob) + len(ob) && len(b) <= len(ob)
+
+//@ func maskBytes
+//@ tags C01 C02 C03 C07
+//@ mode int
+//@ requires 0 <= pos && pos <= 3
+//@ modifies mem(b)
+//@ ensures[mask.bytes] forall(i, 0, len(b), b[i] == old(b[i]) ^ key[(pos+i)&3])
+//@ ensures[mask.pos] result == (pos + len(b)) & 3
+//@ loop 1 modifies mem(b)
+//@ loop 1 invariant pos == old(pos) + rangeindex + 1
+//@ loop 1 invariant forall(j, 0, rangeindex+1, maskedAt(old(b), key, old(pos), j))
+//@ loop 1 invariant forall(j, rangeindex+1, len(b), untouchedAt(old(b), j))
+//@ loop 2 modifies mem(b)
+//@ loop 2 invariant pos == old(pos) + rangeindex + 1 && rangeindex + 1 <= n && 1 <= n && n <= 8
+//@ loop 2 invariant forall(j, 0, rangeindex+1, maskedAt(old(b), key, old(pos), j))
+//@ loop 2 invariant forall(j, rangeindex+1, len(b), untouchedAt(old(b), j))
+//@ loop 3 modifies mem(k)
+//@ loop 3 invariant pos == old(pos) + len(old(b)) - len(b)
+//@ loop 3 invariant forall(j, 0, rangeindex+1, k[j] == key[(old(pos) + len(old(b)) - len(b) + j)&3])
+//@ loop 4 modifies mem(b)
+//@ loop 4 invariant 0 <= i && i <= n && n <= len(b) && pos == old(pos) + len(old(b)) - len(b)
+//@ loop 4 invariant i%8 == 0 && n%8 == 0
+//@ loop 4 invariant forall(j, 0, 8, k[j] == key[(old(pos) + len(old(b)) - len(b) + i + j)&3])
+//@ loop 4 invariant forall(j, 0, len(old(b)) - len(b) + i, maskedAt(old(b), key, old(pos), j))
+//@ loop 4 invariant forall(j, len(old(b)) - len(b) + i, len(old(b)), untouchedAt(old(b), j))
+//@ loop 4 decreases n - i
+//@ loop 5 modifies mem(b)
+//@ loop 5 invariant pos&3 == (old(pos) + len(old(b)) - len(b) + rangeindex + 1)&3
+//@ loop 5 invariant forall(j, 0, len(old(b)) - len(b) + rangeindex + 1, maskedAt(old(b), key, old(pos), j))
+//@ loop 5 invariant forall(j, len(old(b)) - len(b) + rangeindex + 1, len(old(b)), untouchedAt(old(b), j))
